@@ -1,5 +1,5 @@
 """C19 - Uncertainty machinery differentiates exactly and matches closed-form information (DESIGN.md C19)."""
-import ast
+import ast, re
 from fractions import Fraction
 from sa import generic
 from sa.algebra import Rat, Poly, Translator, AlgebraError
@@ -287,9 +287,78 @@ def check_stencils(rep, prog, m):
         want = {'func': 'func', 'f0': 'f0', 'p0': 'p0', 'ii': 'ii', 'jj': 'jj', 'eps': r1['A'], 'args': 'args', 'one_sided': r1['O']}
         okw = not problems and all(ast.unparse(b[k]) == want[k] for k in want if k in b) and len(b) == 8
     rep.ob('R-ARGS', 'get_hess -> hessian_elem', okw, ast.unparse(calls[0]) if calls else 'no call', rel, calls[0].lineno if calls else gh.lineno, what='arguments forwarded by name')
-    sym = [n for n in own_nodes(gh) if isinstance(n, ast.Assign) and ast.unparse(n.targets[0]).replace(' ', '') == 'hess[jj][ii]']
-    oks = bool(sym) and ast.unparse(sym[0].value).replace(' ', '') == 'hess[ii][jj]'
-    rep.ob('R-TPL', 'get_hess symmetry', oks, 'hess[jj][ii] = hess[ii][jj]', rel, sym[0].lineno if sym else gh.lineno, what='Hessian is symmetrised')
+    # what every cell of the returned matrix holds, for 1-3 parameters (abstract execution; element stores, nested subscripts, copies of
+    # cells and the triu_indices mirror are followed): cell (i, j) is the finite-difference element of the ordered pair (min, max)
+    from sa import miniexec as mx
+    from sa import alpha as _alpha
+    known_ = _alpha.load_table().get('__params__', {}).get(rel)
+    known_ = set(known_) if known_ is not None else None
+    bads = []
+    try:
+        for n_ in (1, 2, 3):
+            it_ = mx.Interp(prog, m, known_functions=known_)
+            p0v = [mx.Sym('p%d' % k, truth=True) for k in range(n_)]
+            paths = [p_ for p_ in it_.run(gh, {'func': mx.Sym('func'), 'p0': p0v, 'eps': mx.Sym('eps'), 'args': (mx.Sym('arg0'),)}) if p_[0][0] == 'return']
+            if not paths:
+                raise mx.Undecidable('no returning path for %d parameters' % n_)
+            for outcome, events, _d in paths:         # (the step rule forks on the size of each parameter)
+                res = outcome[1]
+                rt = mx.show(res)
+                cells = {}
+
+                def cell_of(base, key):
+                    """(i, j) or ('mirror', X) for a store / read of res"""
+                    if mx.show(base) == rt and isinstance(key, tuple) and len(key) == 2:
+                        return key
+                    if isinstance(base, mx.Sym) and base.struct and base.struct[0] == 'index' and mx.show(base.struct[1]) == rt and not isinstance(key, tuple):
+                        return (base.struct[2], key)
+                    return None
+
+                def value_of(v):
+                    if isinstance(v, mx.Sym) and v.struct and v.struct[0] == 'index':
+                        c_ = cell_of(v.struct[1], v.struct[2])
+                        if c_ is not None and all(isinstance(x, int) for x in c_):
+                            return cells.get(c_)
+                    return v
+                for e in events:
+                    if e[0] != 'setitem':
+                        continue
+                    c_ = cell_of(e[4], e[2])
+                    if c_ is None:
+                        continue
+                    if all(isinstance(x, int) for x in c_):
+                        cells[c_] = value_of(e[3])
+                        continue
+                    # res[cols, rows] = res[rows, cols] with rows, cols = numpy.triu_indices(n, k=1): the strict upper triangle mirrored
+                    src = e[3]
+                    sc = cell_of(src.struct[1], src.struct[2]) if isinstance(src, mx.Sym) and src.struct and src.struct[0] == 'index' else None
+                    def tri(x):
+                        if isinstance(x, mx.Sym) and x.struct and x.struct[0] == 'index' and x.struct[2] in (0, 1):
+                            t_ = mx.call_of(x.struct[1], 'triu_indices')
+                            if t_ is not None and t_[0] and t_[0][0] == n_ and (t_[1].get('k', t_[0][1] if len(t_[0]) > 1 else 0) == 1):
+                                return x.struct[2]
+                        return None
+                    if sc is not None and [tri(x) for x in c_] == [1, 0] and [tri(x) for x in sc] == [0, 1]:
+                        for i_ in range(n_):
+                            for j_ in range(i_ + 1, n_):
+                                cells[(j_, i_)] = cells.get((i_, j_))
+                    else:
+                        raise mx.Undecidable('store %s[%s]' % (rt[:20], mx.show(e[2])[:40]))
+                for i_ in range(n_):
+                    for j_ in range(n_):
+                        v = cells.get((i_, j_))
+                        c_ = mx.call_of(v, 'hessian_elem') if v is not None else None
+                        ok_ = False
+                        if c_ is not None:
+                            pos = list(c_[0]) + [None] * 8
+                            ii_v = c_[1].get('ii', pos[3])
+                            jj_v = c_[1].get('jj', pos[4])
+                            ok_ = (ii_v, jj_v) == (min(i_, j_), max(i_, j_))
+                        if not ok_:
+                            bads.append('%d parameters: cell (%d, %d) holds %s' % (n_, i_, j_, mx.show(v)[:50] if v is not None else 'nothing'))
+    except mx.Undecidable as e:
+        bads.append('get_hess is not recognised: %s' % e)
+    rep.ob('R-TPL', 'get_hess symmetry', not bads, '; '.join(bads[:2]) if bads else 'every cell (i, j) holds the element of the ordered pair (min(i,j), max(i,j)), each evaluated once', rel, gh.lineno, what='Hessian is symmetrised')
     f0 = single_assignments(gh).get('f0')
     rep.ob('R-FLOW', 'get_hess f0', f0 is not None and ast.unparse(f0) == 'func(p0, *args)', 'f0 = %s' % (ast.unparse(f0) if f0 is not None else None), rel, gh.lineno,
            what='f0 is func at the expansion point')
@@ -557,7 +626,16 @@ def check_assembly(rep, prog, m):
     for fnn in ('GIM_uncert', 'LRT_adjust', 'Wald_stat', 'score_stat'):
         f = prog.func(GOD, fnn)
         un = [n for n in own_nodes(f) if isinstance(n, ast.Assign) and isinstance(n.value, ast.Call) and dotted(n.value.func) == 'get_godambe']
-        ok = bool(un) and isinstance(un[0].targets[0], ast.Tuple) and [ast.unparse(e) for e in un[0].targets[0].elts] == ['GIM', 'H', 'J', 'cU']
+        ok = bool(un) and isinstance(un[0].targets[0], ast.Tuple) and len(un[0].targets[0].elts) == 4 and all(isinstance(e, ast.Name) for e in un[0].targets[0].elts)
+        if ok:
+            # a position whose value is used afterwards must carry the name the other rules know it by; an unused position may be
+            # bound to any placeholder
+            later = {n_.id for n_ in own_nodes(f) if isinstance(n_, ast.Name) and isinstance(n_.ctx, ast.Load) and getattr(n_, 'lineno', 0) > un[0].end_lineno}
+            for e_, canon_ in zip(un[0].targets[0].elts, ['GIM', 'H', 'J', 'cU']):
+                if e_.id in later and e_.id != canon_:
+                    ok = False
+                if canon_ in later and e_.id != canon_:
+                    ok = False
         rep.ob('R-IDX', '%s unpack' % fnn, ok, ast.unparse(un[0].targets[0]) if un else 'no call', rel, un[0].lineno if un else f.lineno, what='(G, H, J, cU) unpacked in order')
         if un:
             b, problems = bind_call(g, un[0].value)
@@ -601,6 +679,10 @@ def run(rep, prog, tier):
     for fnn in ('LRT_adjust', 'Wald_stat', 'score_stat'):
         d = prog.func(GOD, fnn + '.diff_func')
         txt = [ast.unparse(x) for x in d.body if not (isinstance(x, ast.Expr) and isinstance(x.value, ast.Constant))]
+        first = next((x for x in d.body if isinstance(x, ast.Assign) and isinstance(x.targets[0], ast.Name)), None)
+        if first is not None and first.targets[0].id != 'full_params' and not any(isinstance(n_, ast.Name) and n_.id == 'full_params' for n_ in ast.walk(d)):
+            # the working copy may have any local name
+            txt = [re.sub(r'\b%s\b' % re.escape(first.targets[0].id), 'full_params', t_) for t_ in txt]
         ok = txt == ['full_params = numpy.array(p0, copy=True, dtype=float)', 'full_params[nested_indices] = diff_params', 'return func_ex(full_params, ns, grid_pts)']
         rep.ob('R-TPL', '%s.diff_func' % fnn, ok, '; '.join(txt), m.rel, d.lineno, what='nested parameters substituted into a float copy of p0')
     rep.floor('R-ALG', 30)
